@@ -80,7 +80,7 @@ def _attack(data, sig=None):
     st_, v = m.run(MSG.parseMessage, data, [])
     out += _judge('parseMessage', st_, v, m, n, _message_nodes, desc)
     if sig is not None:
-        m = B.Meter(limit)
+        m = B.Meter(LINES_BASE + LINES_PER_BYTE * (n + len(sig)))
         st_, v = m.run(M.unmarshal, sig, data, 0, True, [])
         out += _judge('unmarshal', st_, v, m, n, lambda r: _result_nodes(r[1]), 'sig=%r %s' % (sig, desc))
     # framed through the protocol
@@ -172,9 +172,11 @@ def run_case(case):
         out = _attack(data)
         # the body alone through unmarshal
         from txdbus import marshal as M
-        m = B.Meter(LINES_BASE + LINES_PER_BYTE * len(body))
+        # for a direct unmarshal call the signature is part of the hostile input: its length counts
+        n_in = len(body) + len(sig)
+        m = B.Meter(LINES_BASE + LINES_PER_BYTE * n_in)
         st_, v = m.run(M.unmarshal, sig, body, 0, case['little'], [])
-        out += _judge('unmarshal', st_, v, m, len(body), lambda r: _result_nodes(r[1]),
+        out += _judge('unmarshal', st_, v, m, n_in, lambda r: _result_nodes(r[1]),
                       'sig=%r body=%s' % (sig, body.hex()[:300]))
         return out
     return _attack(data, sig)
